@@ -146,9 +146,9 @@ theorem dropping_inner_shape_cast_changes_meaning :
 
 /-- a cast to a *vector of a literal type* cannot be exported: `generate_type` reaches
 `generate_scalar_type(IntLiteral / FloatLiteral)` and panics — the drop-the-cast rule only looks at scalar targets.
-The type checker no longer builds such a cast for a *binary operation* (`boolvec + 1`, `intvec * 1.5`: fix 40c6233, see
-`vector_op_literal_in_concrete_type`); it still does for the arms of `?:` (`c ? intvec : 1.5`) — known finding
-(corpus/C01.txt: `int3 f1(bool3 b, bool c) { return c ? b : 7; }`). -/
+The type checker no longer builds such a cast: not for a binary operation (`boolvec + 1`, `intvec * 1.5`: fix 40c6233) and
+not for the arms of `?:` (`c ? intvec : 1.5`: fix c05bffa) — see `vector_op_literal_in_concrete_type`; `VIr.typeOf` rejects
+it.  The statement is kept as a fact about the (unchanged) exporter: such a tree must never reach it. -/
 theorem literal_vector_cast_panics (cx : Ctx) (e : VExpr) (a : VAExpr) (n : Nat) (hg : genV cx e = .ok a) :
     (∃ m, genV cx (.cast (.vec .lit n) e) = .error (.panic m)) ∧ (∃ m, genV cx (.cast (.vec .flit n) e) = .error (.panic m)) := by
   constructor <;>
@@ -165,6 +165,10 @@ def eIntVecTimesFlit : VExpr :=
   .op .Multiply (.cons (.cast (.vec .float 3) (.vvar 0))
     (.cons (.cast (.vec .float 3) (.sc (.lit (.floatLit 0x3ff8000000000000#64)))) .nil))
 
+/-- the same for `c ? b : 7` with `b : bool3` since fix c05bffa: `c ? Cast(int3, b) : Cast(int3, 7)` -/
+def eTernVecLit : VExpr :=
+  .tern (.sc (.var 0)) (.cast (.vec .int 3) (.vvar 1)) (.cast (.vec .int 3) (.sc (.lit (.intLit 7))))
+
 def venvOf (t : VTy) : VAst.VEnv where
   base := env0
   vres := env0.res
@@ -175,11 +179,12 @@ theorem vagreeOf (t : VTy) : VAgree cx0 (venvOf t) (fun _ => t) where
   vres := agree0.res
   vvty := rfl
 
-/-- **a vector operation with a literal operand is exported and keeps its meaning** (the positive statement that replaces
-the known findings `b + 1` / `v * 1.5` after fix 40c6233): the trees the type checker now builds are accepted by
-`VIr.typeOf` (result `int3` / `float3`), satisfy the literal side condition, are exported — `(int3)b + (int3)1`,
-`(float3)v * (float3)1.5` — and the emitted expression has the IR's type and evaluates to the IR's value and store for
-every value of the vector, every store and every interpretation of the primitives (instances of `gen_sem_vec_expr_plain`). -/
+/-- **a vector operation or conditional with a literal operand is exported and keeps its meaning** (the positive statement
+that replaces the known findings `b + 1` / `v * 1.5` / `c ? b : 7` after fixes 40c6233 and c05bffa): the trees the type
+checker now builds are accepted by `VIr.typeOf` (result `int3` / `float3`), satisfy the literal side condition, are
+exported — `(int3)b + (int3)1`, `(float3)v * (float3)1.5`, `c ? (int3)b : (int3)7` — and the emitted expression has the
+IR's type and evaluates to the IR's value and store for every value of the vector, every store and every interpretation
+of the primitives (instances of `gen_sem_vec_expr_plain`). -/
 theorem vector_op_literal_in_concrete_type (W : World) :
     genV cx0 eBoolVecPlusLit = .ok (.bin .Add (.cast "int3" (.ident "l")) (.cast "int3" (.sc (.lit (.intUntyped 1))))) ∧
     (∀ a, genV cx0 eBoolVecPlusLit = .ok a →
@@ -188,11 +193,18 @@ theorem vector_op_literal_in_concrete_type (W : World) :
     (∃ a, genV cx0 eIntVecTimesFlit = .ok a) ∧
     (∀ a, genV cx0 eIntVecTimesFlit = .ok a →
       VAst.typeOf W.sig (venvOf (.vec .int 3)) a = some (.vec .float 3) ∧
-      ∀ ρ σ, VAst.eval W (venvOf (.vec .int 3)) ρ a σ = VIr.eval W ρ eIntVecTimesFlit σ) :=
+      ∀ ρ σ, VAst.eval W (venvOf (.vec .int 3)) ρ a σ = VIr.eval W ρ eIntVecTimesFlit σ) ∧
+    genV cx0 eTernVecLit =
+      .ok (.tern (.sc (.ident "l")) (.cast "int3" (.ident "ll")) (.cast "int3" (.sc (.lit (.intUntyped 7))))) ∧
+    (∀ a, genV cx0 eTernVecLit = .ok a →
+      VAst.typeOf W.sig (venvOf (.vec .bool 3)) a = some (.vec .int 3) ∧
+      ∀ ρ σ, VAst.eval W (venvOf (.vec .bool 3)) ρ a σ = VIr.eval W ρ eTernVecLit σ) :=
   ⟨rfl,
    fun a h => gen_sem_vec_expr_plain (vagreeOf _) eBoolVecPlusLit a (.vec .int 3) h rfl rfl rfl,
    ⟨_, rfl⟩,
-   fun a h => gen_sem_vec_expr_plain (vagreeOf _) eIntVecTimesFlit a (.vec .float 3) h rfl rfl rfl⟩
+   fun a h => gen_sem_vec_expr_plain (vagreeOf _) eIntVecTimesFlit a (.vec .float 3) h rfl rfl rfl,
+   rfl,
+   fun a h => gen_sem_vec_expr_plain (vagreeOf _) eTernVecLit a (.vec .int 3) h rfl rfl rfl⟩
 
 /-- the constants outside the evaluated subset (64-bit integers, 16- and 64-bit floats) go — unconditionally, first matching
 arm — to the literal of the *same* kind carrying the *same* payload (`.plain k` = `Literal::k(v)`), and `half` / `double`
